@@ -18,10 +18,12 @@ const VECTORS: [u8; 5] = [36, 37, 39, 1, 63];
 pub fn poke(cpu: &mut Cpu, a: u32, b: &[u8]) {
     for (k, &x) in b.iter().enumerate() {
         let addr = a + k as u32;
+        // through Bus::write (the path a host `u8:` line takes): an implementation that keeps fetched words and
+        // invalidates them there stays coherent with programs loaded into a CPU that has run before
         match addr {
-            0..=0xff => cpu.bus.exception_handling_vector[addr as usize] = x,
-            0x400000..=0x5fffff => cpu.bus.dram[(addr - 0x400000) as usize] = x,
-            0xffbf20..=0xffff1f => cpu.bus.memory[(addr - 0xffbf20) as usize] = x,
+            0..=0xff | 0x400000..=0x5fffff | 0xffbf20..=0xffff1f => {
+                let _ = cpu.bus.write(addr, x);
+            }
             _ => panic!("poke outside plain storage: {:x}", addr),
         }
     }
@@ -158,7 +160,7 @@ pub fn load_guest(cpu: &mut Cpu, g: &Guest) {
 
 fn reset_run_state(cpu: &mut Cpu, g: &Guest) {
     for a in (LOG..LOG + 0x80).chain(CNT..CNT + 0x80).chain(DATA..DATA + 0x20).chain(STACK - 0x80..STACK) {
-        cpu.bus.dram[(a - 0x400000) as usize] = 0;
+        let _ = cpu.bus.write(a, 0);
     }
     cpu.er = [0; 8];
     cpu.er[2] = CODE;
